@@ -1240,6 +1240,21 @@ T_OPS = {
     "add(c)": (lambda S: S.add_columns({"c": pa.Column(int)}), ["a", "b"], {}),
     "remove(b)": (lambda S: S.remove_columns(["b"]), ["a"], {}),
     "set_index(b)": (lambda S: S.set_index(["b"]), ["a"], {}),
+    # a request to clear a property (None is a legal value of these keywords) and requests for falsy values
+    "update_column(b,checks=None)": (lambda S: S.update_column("b", checks=None), ["a"], {}),
+    "update_column(b,title=None)": (lambda S: S.update_column("b", title=None), ["a"], {}),
+    "update_column(a,default=None)": (lambda S: S.update_column("a", default=None), ["b"], {}),
+    "update_columns(b,checks=None)": (lambda S: S.update_columns({"b": {"checks": None}}), ["a"], {}),
+    "update_column(a,nullable=False)": (lambda S: S.update_column("a", nullable=False, unique=False, coerce=False, required=False), ["b"], {}),
+    "update_columns(a,b)": (lambda S: S.update_columns({"a": {"nullable": True}, "b": {"unique": True}}), [], {}),
+}
+# what the touched properties must be afterwards: (column, attribute) -> value
+T_EXPECT = {
+    "update_column(b)": {("b", "nullable"): True}, "update_columns(b)": {("b", "nullable"): True},
+    "update_column(b,checks=None)": {("b", "checks"): []}, "update_column(b,title=None)": {("b", "title"): None},
+    "update_column(a,default=None)": {("a", "default"): None}, "update_columns(b,checks=None)": {("b", "checks"): []},
+    "update_column(a,nullable=False)": {("a", "nullable"): False, ("a", "unique"): False, ("a", "coerce"): False, ("a", "required"): False},
+    "update_columns(a,b)": {("a", "nullable"): True, ("b", "unique"): True},
 }
 T_LAWS = {
     "rename_back": lambda S: S.rename_columns({"a": "z"}).rename_columns({"z": "a"}),
@@ -1277,6 +1292,12 @@ def transform_case(v, group, name):
             asserts.append((f"transform/untouched_schema/{attr}", v.holds(_attr_eq(v, getattr(S, attr, None), getattr(S2, attr, None)))))
         asserts.append(("transform/new_object", v.holds(S2 is not S)))
         asserts.append(("transform/receiver_unchanged", v.holds(fingerprint(S) == fp0)))
+        for (col, attr), want in T_EXPECT.get(name, {}).items():
+            got = getattr(S2.columns[col], attr)
+            asserts.append((f"transform/requested/{col}.{attr}", v.holds(_attr_eq(v, got, want) if not isinstance(want, list) else (list(got or []) == want))))
+        asserts.append(("transform/column_order", v.holds([renamed.get(c, c) for c in S.columns if renamed.get(c, c) in S2.columns]
+                                                          == [c for c in S2.columns if c in [renamed.get(x, x) for x in S.columns]]
+                                                          or name.startswith("select("))))
     elif group == "law":
         S2 = T_LAWS[name](S)
         eq = (S2 == S)
@@ -1506,6 +1527,16 @@ def decorator_case(v, shape, N):
     lazy = v.choice("lazy", [False, True])
     head = v.choice("head", [None, 1])
     opts = dict(lazy=lazy, head=head)
+    if shape.startswith("types") or shape in ("none-pos-opts", "io-opts"):
+        # every validation option the decorators accept: tail and sample (contract stub: any n distinct rows, the same rows for the
+        # same (n, random_state)) in addition
+        opts["tail"] = v.choice("tail", [None, 1])
+        if N >= 1:
+            ns = v.choice("sample", [None, 1])
+            if ns is not None:
+                opts.update(sample=ns, random_state=7)
+        if not v.sym:
+            df = H.with_sample_stub(df, v.vals, N)
     ran, got = [], []
     body_raises = v.choice("body_raises", [False, True]) if shape in ("none-pos", "io", "output") else False
 
@@ -1536,10 +1567,69 @@ def decorator_case(v, shape, N):
             got.append(x)
             return x
 
+    def body_kwonly(p, x, *, flag=False):
+        ran.append(1)
+        got.append(x)
+        return x
+
+    def body_catchall(p, x, **extra):
+        ran.append(1)
+        got.append(x)
+        return x
+
+    def body_varargs(x, *more):
+        ran.append(1)
+        got.append(x)
+        return x
+
     out_kind = "frame"
-    if shape == "none-pos":
+    if shape in ("none-pos", "none-pos-opts"):
         f = check_input(schema, **opts)(body)
         call = lambda: f(df)  # noqa: E731
+    elif shape == "name-pos-kw-default":  # the frame positionally, a defaulted parameter by keyword
+        f = check_input(schema, "x", **opts)(body)
+        call = lambda: f(df, y=1)  # noqa: E731
+    elif shape == "int-pos-kw-default":
+        f = check_input(schema, 0, **opts)(body)
+        call = lambda: f(df, y=1)  # noqa: E731
+    elif shape == "none-pos-kw-default":
+        f = check_input(schema, **opts)(body)
+        call = lambda: f(df, y=1)  # noqa: E731
+    elif shape == "name-pos2-kwonly":
+        f = check_input(schema, "x", **opts)(body_kwonly)
+        call = lambda: f(0, df, flag=True)  # noqa: E731
+    elif shape == "int-pos2-kwonly":
+        f = check_input(schema, 1, **opts)(body_kwonly)
+        call = lambda: f(0, df, flag=True)  # noqa: E731
+    elif shape == "name-pos2-catchall":
+        f = check_input(schema, "x", **opts)(body_catchall)
+        call = lambda: f(0, df, k=1)  # noqa: E731
+    elif shape == "name-pos-varargs":
+        f = check_input(schema, "x", **opts)(body_varargs)
+        call = lambda: f(df, 1, 2)  # noqa: E731
+    elif shape == "io-kw-default":
+        f = check_io(x=schema, out=schema, **opts)(body)
+        call = lambda: f(df, y=1)  # noqa: E731
+    elif shape == "io-opts":
+        f = check_io(x=schema, out=schema, **opts)(body)
+        call = lambda: f(df)  # noqa: E731
+    elif shape in ("types-pos", "types-kw", "types-bare"):
+        from pandera.typing import DataFrame as _DF
+
+        class M(pa.DataFrameModel):
+            a: int = pa.Field(ge=lo)
+
+        def body_t(x, y=0):
+            ran.append(1)
+            got.append(x)
+            return x
+
+        body_t.__annotations__ = {"x": _DF[M], "y": int}  # real objects (this module postpones the evaluation of annotations)
+
+        f = check_types(body_t) if shape == "types-bare" else check_types(**opts)(body_t)
+        if shape == "types-bare":
+            opts = {}
+        call = (lambda: f(x=df)) if shape == "types-kw" else (lambda: f(df))  # noqa: E731
     elif shape == "none-kw":
         f = check_input(schema, **opts)(body)
         call = lambda: f(x=df)  # noqa: E731
@@ -1632,7 +1722,9 @@ def decorator_case(v, shape, N):
 
 
 DECORATOR_SHAPES = ("none-pos", "none-kw", "name-pos", "name-kw", "int-pos", "method-none", "method-name", "method-name-default", "method-name-kw",
-                    "method-int", "io", "output", "output-tuple", "output-dict")
+                    "method-int", "io", "output", "output-tuple", "output-dict",
+                    "none-pos-opts", "io-opts", "name-pos-kw-default", "int-pos-kw-default", "none-pos-kw-default", "name-pos2-kwonly", "int-pos2-kwonly",
+                    "name-pos2-catchall", "name-pos-varargs", "io-kw-default", "types-pos", "types-kw", "types-bare")
 
 
 # ------------------------------------------------------------------ histories of non-transforming operations (C05)
